@@ -166,3 +166,38 @@ package account
 //@   property C04
 //@   requires s != nil && ch.account != nil && registered(ref(s), *ch.account) != 0 && !ptr(accountObject, registered(ref(s), *ch.account)).deleted && ptr(accountObject, registered(ref(s), *ch.account)).db != nil
 //@   ensures [restore] ptr(accountObject, old(registered(ref(s), *ch.account))).data.Nonce == ch.prev
+
+// ---------------------------------------------------------------------------------------------
+// Native-token ledger (C06): bal[a] is the balance of address a as StateDB.GetBalance reports it, supply the sum
+// of all balances. SubBalance debits only when the balance covers the amount (and reports nothing to the
+// VM); AddBalance stores the absolute value of the sum (AccountDB keeps balances as unsigned big-endian
+// bytes). Both facts are the behaviour of account.AccountDB.SubFT/AddFT, trusted here.
+//@ ghost bal (Array {common.Address} Int)
+//@ ghost supply Int
+//@ ghost snapbal (Array Int (Array {common.Address} Int))
+//@ ghost snapsupply (Array Int Int)
+//@ spec macro fn balOf(a common.Address) Int = @select(ghost(bal), a)
+//@ spec fn absZ(x Int) Int = ite(x >= 0, x, 0 - x)
+
+// AccountDB's own balance methods in terms of the ledger (trusted: they go through the token-contract storage
+// slots, GetERC20Binding and the decimal conversion of C18; SubFT refuses a debit the balance does not cover
+// and returns the balance left either way; AddFT stores the absolute value of the sum).
+//@ func AccountDB.GetBalance
+//@   option trusted
+//@   requires adb != nil
+//@   ensures result != nil && fresh(result) && big(result) == balOf(addr)
+//@   modifies nothing
+
+//@ func AccountDB.SubBalance
+//@   option trusted
+//@   requires adb != nil && amount != nil
+//@   ensures [debit]  old(balOf(addr)) >= old(big(amount)) ==> ghost(bal) == @store(old(ghost(bal)), addr, old(balOf(addr)) - old(big(amount))) && ghost(supply) == old(ghost(supply)) - old(big(amount))
+//@   ensures [refuse] old(balOf(addr)) < old(big(amount)) ==> ghost(bal) == old(ghost(bal)) && ghost(supply) == old(ghost(supply))
+//@   ensures [left]   left != nil && fresh(left) && big(left) == balOf(addr)
+//@   modifies ghost(bal), ghost(supply)
+
+//@ func AccountDB.AddBalance
+//@   option trusted
+//@   requires adb != nil && amount != nil
+//@   ensures [credit] ghost(bal) == @store(old(ghost(bal)), addr, absZ(old(balOf(addr)) + old(big(amount)))) && ghost(supply) == old(ghost(supply)) - old(balOf(addr)) + absZ(old(balOf(addr)) + old(big(amount)))
+//@   modifies ghost(bal), ghost(supply)
